@@ -199,7 +199,7 @@ def run_conic(c):
 @st.composite
 def round_case(draw, tier="quick"):
     what = draw(st.sampled_from(["circle", "ellipse", "sphere2", "sphere3"]))
-    return {"what": what, "c": [draw(C.ints(9)) for _ in range(3)], "r": draw(st.sampled_from([1, 2, 3, 5, 7, 0.5, 1.5])), "r2": draw(st.sampled_from([1, 2, 4, 6, 0.5, 2.5])),
+    return {"what": what, "c": [draw(C.ints(9)) for _ in range(3)], "r": draw(st.sampled_from([1, 2, 3, 5, 7, 0.5, 1.5, 0.125, 0.1, 0.0625])), "r2": draw(st.sampled_from([1, 2, 4, 6, 0.5, 2.5, 0.25, 0.1])),
             "phi": [draw(st.integers(0, 23)) for _ in range(4)], "s": draw(C.scale()),
             "moved": draw(st.one_of(st.none(), st.tuples(st.sampled_from([2.0, 0.5, 1.0]), st.integers(-4, 4), st.integers(-4, 4), st.integers(-4, 4)).map(list)))}
 
@@ -319,7 +319,7 @@ def run_round(c):
 def cone_case(draw, tier="quick"):
     what = draw(st.sampled_from(["cone", "cylinder"]))
     axis = [draw(st.integers(-4, 4)) for _ in range(3)]
-    return {"what": what, "v": [draw(C.ints(6)) for _ in range(3)], "axis": axis, "r": draw(st.sampled_from([1, 2, 3, 0.5, 1.5])), "phi": [draw(st.integers(0, 23)) for _ in range(3)],
+    return {"what": what, "v": [draw(C.ints(6)) for _ in range(3)], "axis": axis, "r": draw(st.sampled_from([1, 2, 3, 0.5, 1.5, 0.125, 0.1])), "phi": [draw(st.integers(0, 23)) for _ in range(3)],
             "t": [draw(st.sampled_from([1, 0.5, 2, -1, -0.5, 1.5])) for _ in range(3)]}
 
 
